@@ -78,7 +78,11 @@ class _Builder:
             k = self.draw(st.integers(0, len(pool)))
             if k == len(pool):
                 h = self.draw(st.integers(1, 5))
-                contig = "%s#%d#%s.ctg%d" % (self.draw(st.sampled_from(["HG002", "NA1_2", "hap-A"])), h, chrom["name"], len(pool))
+                contig = "%s#%d#%s.ctg%d" % (self.draw(st.sampled_from(["HG002", "NA1_2", "hap-A"])), h, chrom["name"],
+                                             self.draw(st.integers(0, 1)))  # PanSN style: HG002#1#ctg0 and HG002#2#ctg0 are different contigs
+                while contig in self.hap_cursor:
+                    contig = contig.replace("#%d#" % h, "#%d#" % (h + 1), 1)
+                    h += 1
                 pool.append(contig)
                 self.hap_cursor[contig] = self.draw(st.sampled_from([0, 0, 7, 100]))
                 self.hap_rank[contig] = h
@@ -201,7 +205,7 @@ def rgfa(draw, min_chroms=1, max_chroms=2, max_elements=5, max_ln=9, min_element
                              draw(st.sampled_from(["utg", "n", "s0", "s1.", "ctg-", "n#", "b"]))], start, max_ln)
     b.cycles = cycles
     nchrom = draw(st.integers(min_chroms, max_chroms))
-    names = draw(st.permutations(["chr1", "chr2", "chrX", "chr10_alt"]))[:nchrom]
+    names = draw(st.permutations(["chr1", "chr2", "chrX", "chr10_alt", "chr1.mat", "chr1.pat"]))[:nchrom]
     for name in names:
         b.chain(name, draw(st.integers(min_elements, max_elements)), allow_bridge, max_ears)
     b.fix_majority()
